@@ -52,12 +52,12 @@ def _find_token(
     if isinstance(node, Tree):
         for child in node.children:
             res = _find_token(child, searched_token_type)
-            if res:
+            if res is not None:
                 return res
     if isinstance(node, list):
         for child in node:
             res = _find_token(child, searched_token_type)
-            if res:
+            if res is not None:
                 return res
     return None
 
